@@ -31,10 +31,10 @@ FAMILIES = [
 ]
 
 
-def cfg(sv, st, dv, dt, ops, ev='', et='none'):
+def cfg(sv, st, dv, dt, ops, ev='', et='none', cv='', cvon=False):
   return dict(sv=[_shape(c) for c in sv], st=st, dv=[_shape(c) for c in dv], dt=dt,
-              ev=[_shape(c) for c in ev], et=et,
-              ops=frozenset(ops), svn=sv, dvn=dv, evn=ev)
+              ev=[_shape(c) for c in ev], et=et, cv=[_shape(c) for c in cv], cvon=cvon,
+              ops=frozenset(ops), svn=sv, dvn=dv, evn=ev, cvn=cv)
 
 
 def _shape(c):
@@ -52,6 +52,10 @@ def configs(tier):
       out.append(cfg('', 'none', dv, dt, D_OPS))
   for sv, dv in (('A', 'C'), ('AC', 'E'), ('E', 'A')):
     out.append(cfg(sv, 'inc', dv, 'clamp', S_OPS | D_OPS))
+  # conditional validators (validate_on): applied iff the diagnosis existed when the phase started
+  for sv, cv in (('', 'A'), ('B', 'C'), ('A', 'E'), ('E', 'D')):
+    for cvon in (False, True):
+      out.append(cfg(sv, 'none', '', 'none', {'SetS', 'Read'}, cv=cv, cvon=cvon))
   # two dimensioned measurements: the validator of one raises at phase end
   for dv, ev in (('C', 'A'), ('C', 'C'), ('A', 'C'), ('E', 'D'), ('', 'E')):
     out.append(cfg('', 'none', dv, 'none', {'SetD', 'SetE', 'Read'}, ev=ev, et='inc'))
@@ -59,7 +63,7 @@ def configs(tier):
 
 
 def module(cfgs):
-  body = ',\n'.join(to_tla({k: v for k, v in c.items() if k not in ('svn', 'dvn', 'evn')}) for c in cfgs)
+  body = ',\n'.join(to_tla({k: v for k, v in c.items() if k not in ('svn', 'dvn', 'evn', 'cvn')}) for c in cfgs)
   return '---- MODULE MCMeas ----\nEXTENDS Measurement\nMCCfgs == <<\n%s\n>>\n====\n' % body
 
 
@@ -254,6 +258,8 @@ def run_batch(items):
     ms = m_lib.Measurement('s')
     for sh in c['sv']:
       ms.with_validator(AbsValidator(sh, tok))
+    for sh in c['cv']:
+      ms.validate_on({build.R.a: AbsValidator(sh, tok)})
     t = transform(c['st'], tok)
     if t:
       ms.with_transform(t)
@@ -274,7 +280,17 @@ def run_batch(items):
 
   for k, (c, hist, fam) in enumerate(items):
     phases.append(make(k, c, hist, fam))
-  test = htf.Test(htf.PhaseGroup(main=[], teardown=phases))
+  cvon = any(c['cvon'] for c, _, _ in items)
+  assert all(c['cvon'] == cvon for c, _, _ in items if c['cv']), 'batch mixes cvon'
+  pre = []
+  if cvon:
+    from openhtf.core import diagnoses_lib
+
+    def issue(phase_record):
+      return htf.Diagnosis(build.R.a, 'conditional validators on')
+    pre = [htf.diagnose(diagnoses_lib.PhaseDiagnoser(build.R, name='issue', run_func=issue))(
+        htf.PhaseOptions(name='issue_diag')(lambda test: None))]
+  test = htf.Test(htf.PhaseGroup(main=pre, teardown=phases))
   out = []
   test.add_output_callbacks(out.append)
   build.CONF.load(allow_unset_measurements=True, _override=True)
@@ -284,6 +300,9 @@ def run_batch(items):
     build.CONF.load(allow_unset_measurements=False, _override=True)
   rec = out[0]
   rec_bt = rec.as_base_types()
+  if pre:
+    del rec.phases[0]
+    rec_bt = dict(rec_bt, phases=rec_bt['phases'][1:])
   if len(rec.phases) != len(items):
     for r in results:
       r.append(('harness', 'batch produced %d phase records for %d histories' % (len(rec.phases), len(items))))
@@ -339,8 +358,12 @@ def work(args):
     for f in range(nfam):
       items.append((cfgs[ci - 1], hist, (fam_base + n + f) % len(FAMILIES)))
   out = dict(n=len(items), bad=[], sample=None, nontrivial=0, cats={})
-  for i in range(0, len(items), BATCH):
-    chunk = items[i:i + BATCH]
+  items.sort(key=lambda it: bool(it[0]['cvon']))       # batches never mix cvon
+  split = next((i for i, it in enumerate(items) if it[0]['cvon']), len(items))
+  off, on = items[:split], items[split:]
+  batches = [off[i:i + BATCH] for i in range(0, len(off), BATCH)] + \
+            [on[i:i + BATCH] for i in range(0, len(on), BATCH)]
+  for chunk in batches:
     res = run_batch(chunk)
     for (c, hist, fam), bad in zip(chunk, res):
       if len(hist) >= 3:
@@ -348,7 +371,7 @@ def work(args):
       for cat, msg in bad:
         out['cats'][cat] = out['cats'].get(cat, 0) + 1
       if bad and len(out['bad']) < 8:
-        out['bad'].append(dict(cfg=dict(sv=c['svn'], st=c['st'], dv=c['dvn'], dt=c['dt'], ev=c['evn'], et=c['et']),
+        out['bad'].append(dict(cfg=dict(sv=c['svn'], st=c['st'], dv=c['dvn'], dt=c['dt'], ev=c['evn'], et=c['et'], cv=c['cvn'], cvon=c['cvon']),
                                hist=hist, fam=fam, mismatches=bad))
       if out['sample'] is None and len(hist) >= 3:
         out['sample'] = dict(cfg=dict(sv=c['svn'], st=c['st'], dv=c['dvn'], dt=c['dt']),
@@ -358,5 +381,6 @@ def work(args):
 
 def replay_one(sc):
   c = cfg(sc['cfg']['sv'], sc['cfg']['st'], sc['cfg']['dv'], sc['cfg']['dt'], S_OPS | D_OPS | {'SetE'},
-          ev=sc['cfg'].get('ev', ''), et=sc['cfg'].get('et', 'none'))
+          ev=sc['cfg'].get('ev', ''), et=sc['cfg'].get('et', 'none'), cv=sc['cfg'].get('cv', ''),
+          cvon=sc['cfg'].get('cvon', False))
   return run_batch([(c, sc['hist'], sc['fam'])])[0]
